@@ -1115,3 +1115,85 @@ Proof.
   unfold event_count. constructor; [lia|].
   repeat (constructor; [apply count_some_bounds|]). constructor.
 Qed.
+
+(* ======================================================= round 4: the two block tables ======== *)
+Definition TlInv (st : tl_state) : Prop := map fst (tl_durs st) = tl_keys st /\ NoDup (tl_keys st).
+
+Lemma keys_set_In k ks x : In x (keys_set k ks) <-> x = k \/ In x ks.
+Proof.
+  induction ks as [|k' r IH]; cbn [keys_set In]; [intuition|].
+  destruct (Z.eqb_spec k k') as [->|N]; cbn [In]; [intuition|]. rewrite IH. intuition.
+Qed.
+Lemma keys_set_NoDup k ks : NoDup ks -> NoDup (keys_set k ks).
+Proof.
+  induction ks as [|k' r IH]; intro N; cbn [keys_set]; [constructor; [intros []|constructor]|].
+  destruct (Z.eqb_spec k k') as [->|Ne]; [exact N|].
+  inversion N; subst. constructor; [|auto].
+  rewrite keys_set_In. intros [E|H]; [congruence|contradiction].
+Qed.
+Lemma tbl_set_keys k v t : map fst (tbl_set k v t) = keys_set k (map fst t).
+Proof.
+  induction t as [|[k' v'] r IH]; cbn [tbl_set map fst keys_set]; [reflexivity|].
+  destruct (Z.eqb_spec k k') as [->|Ne]; cbn [map fst]; [reflexivity|]. rewrite IH. reflexivity.
+Qed.
+
+Lemma tl_inv_empty : TlInv tl_empty.
+Proof. split; [reflexivity|constructor]. Qed.
+Lemma tl_inv_set_block k d st : TlInv st -> TlInv (tl_set_block k d st).
+Proof.
+  intros [E N]. split; cbn [tl_set_block tl_keys tl_durs].
+  - rewrite tbl_set_keys, E. reflexivity.
+  - apply keys_set_NoDup. exact N.
+Qed.
+Lemma tl_inv_read file st : NoDup (map fst file) -> TlInv (tl_read file st).
+Proof. intro N. split; [reflexivity|exact N]. Qed.
+
+Definition op_ok (o : tl_op) : Prop := match o with OpSet _ _ => True | OpRead f => NoDup (map fst f) end.
+Lemma tl_inv_run_from ops st : TlInv st -> Forall op_ok ops -> TlInv (fold_left tl_step ops st).
+Proof.
+  revert st. induction ops as [|o ops IH]; intros st I F; cbn [fold_left]; [exact I|].
+  inversion F; subst. apply IH; [|assumption].
+  destruct o as [k d|f]; cbn [tl_step]; [apply tl_inv_set_block; exact I|apply tl_inv_read; assumption].
+Qed.
+
+Lemma tbl_lookup_app_notin k pre suf : ~ In k (map fst pre) -> tbl_lookup k (pre ++ suf) = tbl_lookup k suf.
+Proof.
+  induction pre as [|[k' v'] r IH]; intro H; cbn [app tbl_lookup]; [reflexivity|].
+  cbn [map fst In] in H. destruct (Z.eqb_spec k k') as [->|Ne]; [exfalso; apply H; left; reflexivity|].
+  apply IH. intro. apply H. right. assumption.
+Qed.
+
+Lemma tl_duration_go_suffix pre suf acc : NoDup (map fst (pre ++ suf)) ->
+  tl_duration_go (map fst suf) (pre ++ suf) acc = Some (fold_left Qplus (map snd suf) acc).
+Proof.
+  revert pre acc. induction suf as [|[k v] r IH]; intros pre acc N; cbn [map fst snd tl_duration_go fold_left]; [reflexivity|].
+  assert (Hk : ~ In k (map fst pre)).
+  { rewrite map_app in N. cbn [map fst] in N. apply NoDup_remove_2 in N. intro H. apply N. apply in_or_app. left. exact H. }
+  rewrite (tbl_lookup_app_notin k pre ((k, v) :: r) Hk). cbn [tbl_lookup]. rewrite Z.eqb_refl.
+  replace (pre ++ (k, v) :: r) with ((pre ++ [(k, v)]) ++ r) by (rewrite <- app_assoc; reflexivity).
+  apply IH. rewrite <- app_assoc. exact N.
+Qed.
+
+(* C07 (round 4): while the two tables carry the same keys in the same order, duration() and
+   sum(block_durations.values()) are the same number, for every history of set_block / add_block and read *)
+Theorem tl_totals_agree st : TlInv st -> tl_duration st = Some (tl_sum st).
+Proof.
+  intros [E N]. unfold tl_duration, tl_sum. rewrite <- E.
+  apply (tl_duration_go_suffix [] (tl_durs st) 0). cbn [app]. rewrite E. exact N.
+Qed.
+Theorem tl_history_totals_agree ops : Forall op_ok ops ->
+  TlInv (tl_run ops) /\ tl_duration (tl_run ops) = Some (tl_sum (tl_run ops)).
+Proof.
+  intro F. assert (I : TlInv (tl_run ops)) by (apply tl_inv_run_from; [apply tl_inv_empty|exact F]).
+  split; [exact I|apply tl_totals_agree; exact I].
+Qed.
+
+(* a read that merges the file into the old duration table (instead of replacing it) breaks this *)
+Lemma tl_merging_read_disagrees :
+  exists st file, TlInv st /\ NoDup (map fst file) /\
+    tl_duration (tl_read_merging file st) = Some (1 # 1000) /\ tl_sum (tl_read_merging file st) == 3 # 1000.
+Proof.
+  exists (tl_run [OpSet 1 (1 # 1000); OpSet 2 (2 # 1000)]), [(1%Z, 1 # 1000)].
+  split; [apply tl_inv_run_from; [apply tl_inv_empty|repeat constructor]|].
+  split; [repeat constructor; intros []|]. split; vm_compute; reflexivity.
+Qed.
